@@ -84,8 +84,7 @@ func vsj(vs []*conntypes.Version) []any {
 	return out
 }
 
-func famVersions(r *hx.Rng, o *hx.Out, part int) {
-	n := hx.N(250, 8000)
+func famVersions(r *hx.Rng, o *hx.Out, part int, n int) {
 	compat := conntypes.GetCompatibleVersions()
 	for i := 0; part == 0 && i < n; i++ {
 		sup := genVersions(r)
